@@ -240,6 +240,14 @@ var c10HostileCbor = func() [][]byte {
 		out = append(out, bytes.Repeat([]byte{0x9f}, n))
 		out = append(out, bytes.Repeat([]byte{0xbf, 0x60}, n))
 	}
+	// many collection headers that each claim a length within the budget but not in sum (nested, and as siblings)
+	for _, n := range []int{3, 5, 40, 600, 2000} {
+		out = append(out, bytes.Repeat([]byte{0x99, 0x03, 0xe8}, n))
+		out = append(out, bytes.Repeat([]byte{0x98, 0xff}, n))
+		out = append(out, bytes.Repeat([]byte{0xb9, 0x03, 0xe8, 0x60}, n))
+		out = append(out, append([]byte{0x99, 0xff, 0xff}, bytes.Repeat([]byte{0x98, 0xc8}, n)...))
+		out = append(out, append([]byte{0x99, 0xff, 0xff}, bytes.Repeat([]byte{0x99, 0x03, 0xe8, 0x01}, n)...))
+	}
 	// a big list of empty maps / empty lists / empty strings
 	for _, el := range []byte{0xa0, 0x80, 0x60, 0x40, 0xf6} {
 		out = append(out, append(append([]byte{0x99}, 0x0f, 0xa0), bytes.Repeat([]byte{el}, 4000)...))
@@ -307,7 +315,7 @@ func drawSoup(t *rapid.T) []byte {
 
 var c10Decoders = evid.Part[C10Case]{
 	Prop: "C10", Name: "decoders", Quick: 24000, Thorough: 2400000,
-	Rule: "bytes (random, CBOR token soup, mutated valid encodings, mutated hostile table: 32/64-bit length claims on every major type, nesting ramps, long digit runs, huge exponents, lone surrogates, reserved-shape nests) × decoder ∈ {dag-cbor, cbor, dag-json, json, raw} × options (MaxDepth 1/2/7/64/default, AllocationBudget 1/64/4096/65536/default, MaxCollectionPrealloc 1/16/2^40/default, relaxed, links, parse-bytes, dont-parse-beyond-end) × target assembler (basicnode Any and kind-specific, counting proxy, bindnode Any containers at type and representation level); oracle: no panic, terminates (10 s watchdog), proxy nesting ≤ MaxDepth, size hints ≤ prealloc cap, TotalAlloc delta ≤ 1 MiB + K·(budget + input length); non-trivial = accepted, a configured limit tripped, or a rejection of an input of ≥2 bytes; distinct by (input, options, target)",
+	Rule: "bytes (random, CBOR token soup, mutated valid encodings, mutated hostile table: 32/64-bit length claims on every major type, nesting ramps, runs of collection headers that each fit the budget but not in sum, long digit runs, huge exponents, lone surrogates, reserved-shape nests) × decoder ∈ {dag-cbor, cbor, dag-json, json, raw} × options (MaxDepth 1/2/7/64/default, AllocationBudget 1/64/4096/65536/default, MaxCollectionPrealloc 1/16/2^40/default, relaxed, links, parse-bytes, dont-parse-beyond-end) × target assembler (basicnode Any and kind-specific, counting proxy, bindnode Any containers at type and representation level); oracle: no panic, terminates (10 s watchdog), proxy nesting ≤ MaxDepth, size hints ≤ prealloc cap, TotalAlloc delta ≤ 1 MiB + K·(budget + input length); non-trivial = accepted, a configured limit tripped, or a rejection of an input of ≥2 bytes; distinct by (input, options, target)",
 	Gen: func(t *rapid.T) C10Case {
 		c := C10Case{Codec: rapid.SampledFrom([]string{"dag-cbor", "dag-cbor", "cbor", "dag-json", "dag-json", "json", "raw"}).Draw(t, "codec"), Opt: drawC10Opt(t),
 			Target: rapid.SampledFrom(c10Targets).Draw(t, "target")}
@@ -421,10 +429,11 @@ func TestC10_HostileTable(t *testing.T) {
 	if evid.Shard() != 0 {
 		t.Skip()
 	}
-	rec := evid.New("C10", "hostiletable", "every entry of the hostile CBOR and JSON tables × codecs of the family × {default limits, budget 64, budget 4096 + depth 7, prealloc 2^40} × {proxy, basic.any, bind.anymap}; same oracle as [decoders]; enumerated completely")
+	rec := evid.New("C10", "hostiletable", "every entry of the hostile CBOR and JSON tables × codecs of the family × {default limits, budget 64, budget 4096 + depth 7, prealloc 2^40, budget 4096, budget 65536 + prealloc 2^40} × {proxy, basic.any, bind.anymap}; same oracle as [decoders]; enumerated completely")
 	rec.Exhaustive()
 	defer rec.Flush()
-	opts := []C10Opt{{}, {Budget: 64, Links: true}, {Budget: 4096, MaxDepth: 7, Links: true, ParseBytes: true}, {Prealloc: 1 << 40, Relaxed: true, Links: true, ParseBytes: true}}
+	opts := []C10Opt{{}, {Budget: 64, Links: true}, {Budget: 4096, MaxDepth: 7, Links: true, ParseBytes: true}, {Prealloc: 1 << 40, Relaxed: true, Links: true, ParseBytes: true},
+		{Budget: 4096, Links: true}, {Budget: 65536, Prealloc: 1 << 40}}
 	run := func(codec string, tbl [][]byte) {
 		for i, b := range tbl {
 			for _, o := range opts {
